@@ -129,6 +129,22 @@ type nameChoice struct {
 	mk    func() enc.Name
 }
 
+// empties builds a name of n zero-length generic components; where: 0 alone, 1 followed by /a,
+// 2 preceded by /a.
+func empties(n, where int) enc.Name {
+	var nm enc.Name
+	if where == 2 {
+		nm = append(nm, comp(8, []byte("a")))
+	}
+	for i := 0; i < n; i++ {
+		nm = append(nm, comp(8, []byte{}))
+	}
+	if where == 1 {
+		nm = append(nm, comp(8, []byte("a")))
+	}
+	return nm
+}
+
 func nameChoices() []nameChoice {
 	many := func() enc.Name {
 		n := make(enc.Name, 0, 131)
@@ -146,6 +162,17 @@ func nameChoices() []nameChoice {
 		{"/typed(1,0x32,0xfd,0xffff)", func() enc.Name {
 			return enc.Name{comp(1, pattern(32, 1)), comp(0x32, []byte{0}), comp(0xfd, []byte("x")), comp(0xffff, []byte("yz"))}
 		}},
+		// many zero-length components: 2 bytes each, the densest a name can be (component count
+		// is bounded by length/2, which is what parsers pre-size from)
+		{"4 empty components", func() enc.Name { return empties(4, 0) }},
+		{"5 empty components", func() enc.Name { return empties(5, 0) }},
+		{"8 empty components", func() enc.Name { return empties(8, 0) }},
+		{"4 empty components + /a", func() enc.Name { return empties(4, 1) }},
+		{"5 empty components + /a", func() enc.Name { return empties(5, 1) }},
+		{"8 empty components + /a", func() enc.Name { return empties(8, 1) }},
+		{"/a + 4 empty components", func() enc.Name { return empties(4, 2) }},
+		{"/a + 5 empty components", func() enc.Name { return empties(5, 2) }},
+		{"/a + 8 empty components", func() enc.Name { return empties(8, 2) }},
 		{"total252", func() enc.Name { return enc.Name{comp(8, pattern(250, 3))} }},
 		{"total253", func() enc.Name { return enc.Name{comp(8, pattern(251, 3))} }},
 		{"comp252", func() enc.Name { return enc.Name{comp(8, pattern(252, 3))} }},
@@ -327,7 +354,12 @@ func buildDom(td *typeDesc, depth int, noAbsent bool) *domain {
 			}
 			d.c = append(d.c, choice{label: "/a/<digest>", mk: dig})
 			if depth == 0 {
-				for _, n := range []nameChoice{ncs[0], ncs[1], ncs[2], ncs[6]} {
+				for _, n := range ncs {
+					switch n.label {
+					case "empty", "/a", "/a/b", "total253", "8 empty components":
+					default:
+						continue
+					}
 					n := n
 					d.c = append(d.c, choice{label: n.label + "+needDigest", digest: true, mk: func() reflect.Value { return reflect.ValueOf(n.mk()) }})
 				}
